@@ -25,11 +25,11 @@ const (
 	// of a session - a session setting that the tool can only make in
 	// configuration mode (it becomes part of the running configuration)
 	ClSessionConf = "session-setting-in-config-mode"
-	ClChange  = "config-changing"
-	ClSave    = "save"
-	ClReload  = "reload-control"
-	ClCleanup = "clean-up"
-	ClOther   = "other"
+	ClChange      = "config-changing"
+	ClSave        = "save"
+	ClReload      = "reload-control"
+	ClCleanup     = "clean-up"
+	ClOther       = "other"
 )
 
 type Rec struct {
@@ -47,17 +47,19 @@ type Rec struct {
 
 // Deviation kinds for SSH devices.
 const (
-	DevError   = "error"       // device answers with its error text
-	DevGarbage = "garbage"     // unexpected output / garbled echo
-	DevStall   = "stall"       // no answer (time-out)
-	DevClose   = "close"       // connection closed
-	DevNoOK    = "no-ok"       // write memory without [OK]
-	DevExit1   = "exit1"       // Linux: silent non-zero exit status
-	DevBanner  = "banner"      // IOS reload banner (see BannerSpec)
-	DevWarnErr = "warn+error"  // ASA: the benign warning this command class can produce, followed by the error text
-	DevInfoErr = "info+error"  // ASA: an INFO: line followed by the error text
-	DevError1  = "error-1line" // the device answers with a one-line error text (semantic rejections look like this)
-	DevBadConf = "bad-config"  // the configuration the device prints holds a (legal) construct the tool's parser rejects
+	DevError     = "error"        // device answers with its error text
+	DevGarbage   = "garbage"      // unexpected output / garbled echo
+	DevStall     = "stall"        // no answer (time-out)
+	DevClose     = "close"        // connection closed
+	DevNoOK      = "no-ok"        // write memory without [OK]
+	DevAuthz     = "authz-failed" // ASA / IOS: AAA refuses the command: "Command authorization failed."
+	DevSaveAbort = "save-aborted" // IOS: "%Aborting Save. Compress the config.[OK]" - nothing was saved
+	DevExit1     = "exit1"        // Linux: silent non-zero exit status
+	DevBanner    = "banner"       // IOS reload banner (see BannerSpec)
+	DevWarnErr   = "warn+error"   // ASA: the benign warning this command class can produce, followed by the error text
+	DevInfoErr   = "info+error"   // ASA: an INFO: line followed by the error text
+	DevError1    = "error-1line"  // the device answers with a one-line error text (semantic rejections look like this)
+	DevBadConf   = "bad-config"   // the configuration the device prints holds a (legal) construct the tool's parser rejects
 )
 
 type BannerSpec struct {
@@ -351,6 +353,9 @@ func (s *SSH) motd() string { return "" }
 
 // devText returns the device's own error phrasing.
 func (s *SSH) errText() string {
+	if s.curDev == DevAuthz {
+		return "Command authorization failed.\n"
+	}
 	if s.curDev == DevError1 {
 		switch s.Flavor {
 		case "asa":
@@ -656,6 +661,9 @@ func (s *SSH) iosLine(l, class, dev string) {
 		case DevNoOK:
 			s.rec(l, class, dev, false)
 			s.iosAnswer(l, "Building configuration...\n% Error writing nvram")
+		case DevSaveAbort:
+			s.rec(l, class, dev, false)
+			s.iosAnswer(l, "Building configuration...\n%Aborting Save. Compress the config.[OK]")
 		default:
 			s.rec(l, class, dev, true)
 			s.Saved++
